@@ -113,11 +113,11 @@ pub fn run(case: &Value, _seed: u64) -> Outcome {
             rt(&mut o, ty, &debian_control::lossless::changes::File { md5sum: TOKS[f[0]].into(), size: size(f[1]), section: ["libs", "non-free/x11"][f[2] - 1].into(), priority: prio(f[3]), filename: TOKS[f[4] - 1].into() }, |v| v.to_string(), &feats) }
         "BuildProfile" => { use debian_control::relations::BuildProfile; let n = ["nocheck", "stage1", "pkg.a.b", "cross"][f[1] - 1].to_string();
             rt(&mut o, ty, &(if f[0] == 1 { BuildProfile::Disabled(n) } else { BuildProfile::Enabled(n) }), |v| v.to_string(), &feats) }
-        "Forwarded" => { use dep3::Forwarded; let v = match f[0] { 1 => Forwarded::No, 2 => Forwarded::NotNeeded, _ => Forwarded::Yes(["https://bugs.example/1", "mailto:x@example.com", "not needed", "Yes"][f[1] - 1].to_string()) };
+        "Forwarded" => { use dep3::Forwarded; let v = match f[0] { 1 => Forwarded::No, 2 => Forwarded::NotNeeded, _ => Forwarded::Yes(["https://bugs.example/1", "mailto:x@example.com", "not needed", "Yes", "no thanks", "see not-needed", "https://x.example/?forwarded=no"][f[1] - 1].to_string()) };
             rt(&mut o, ty, &v, |v| v.to_string(), &feats) }
-        "Origin" => { use dep3::Origin; let t = ["abc123", "https://x.example/c/1", "1.2.3", "é"][f[1] - 1].to_string();
+        "Origin" => { use dep3::Origin; let t = ["abc123", "https://x.example/c/1", "1.2.3", "é", "2.1, commit:0123abcd", "see commit:abc", "upstream, https://x.example/1"][f[1] - 1].to_string();
             rt(&mut o, ty, &(if f[0] == 1 { Origin::Commit(t) } else { Origin::Other(t) }), |v| v.to_string(), &feats) }
-        "AppliedUpstream" => { use dep3::AppliedUpstream; let t = ["abc123", "https://x.example/c/1", "1.2.3", "é"][f[1] - 1].to_string();
+        "AppliedUpstream" => { use dep3::AppliedUpstream; let t = ["abc123", "https://x.example/c/1", "1.2.3", "é", "2.1, commit:0123abcd", "see commit:abc", "1.2, https://x.example/r/123"][f[1] - 1].to_string();
             rt(&mut o, ty, &(if f[0] == 1 { AppliedUpstream::Commit(t) } else { AppliedUpstream::Other(t) }), |v| v.to_string(), &feats) }
         "ParsedVcs" => { use debian_control::vcs::ParsedVcs;
             let v = ParsedVcs { repo_url: URLS[f[0] - 1].into(), branch: if f[1] == 0 { None } else { Some(BR[f[1] - 1].into()) }, subpath: if f[2] == 0 { None } else { Some(SP[f[2] - 1].into()) } };
